@@ -8,11 +8,12 @@ from fractions import Fraction
 
 
 class Lin:
-    __slots__ = ("c", "t")
+    __slots__ = ("c", "t", "_h")
 
     def __init__(self, c=0, t=None):
-        self.c = Fraction(c)
-        self.t = {k: Fraction(v) for k, v in (t or {}).items() if v}
+        self.c = c if isinstance(c, Fraction) else Fraction(c)
+        self.t = {k: (v if isinstance(v, Fraction) else Fraction(v)) for k, v in (t or {}).items() if v}
+        self._h = None
 
     @staticmethod
     def sym(n):
@@ -47,7 +48,9 @@ class Lin:
         return self.c == o.c and self.t == o.t
 
     def __hash__(self):
-        return hash((self.c, tuple(sorted(self.t.items()))))
+        if self._h is None:
+            self._h = hash((self.c, tuple(sorted(self.t.items()))))
+        return self._h
 
     def is_const(self):
         return not self.t
@@ -83,13 +86,78 @@ def lin(x) -> Lin:
     return x if isinstance(x, Lin) else Lin(x)
 
 
-def entails_nonneg(facts: list[Lin], goal: Lin, integer=True, max_rows=4000) -> bool:
+def solve_eqs(eqs):
+    """Gaussian elimination of a list of equalities (each Lin == 0). Returns (substitutions [(sym, Lin)], consistent)."""
+    subs = []
+    for e in eqs:
+        for sym, val in subs:
+            if sym in e.t:
+                e = e.subst(sym, val)
+        if e.is_const():
+            if e.c != 0:
+                return subs, False
+            continue
+        sym = min(e.t, key=lambda k: (abs(e.t[k]) != 1, k))
+        k = e.t[sym]
+        rest = Lin(e.c, {a: b for a, b in e.t.items() if a != sym})
+        subs.append((sym, rest.scale(Fraction(-1) / k)))
+    return subs, True
+
+
+def apply_subs(subs, r: Lin) -> Lin:
+    for sym, val in subs:
+        if sym in r.t:
+            r = r.subst(sym, val)
+    return r
+
+
+def reduce_equalities(rows, eqs=()):
+    """substitute the explicit equalities away; rows that become constant are checked and dropped"""
+    if not eqs:
+        return list(dict.fromkeys(rows))
+    subs, ok = solve_eqs(eqs)
+    if not ok:
+        return [Lin(-1)]
+    out = []
+    for r in rows:
+        r2 = apply_subs(subs, r)
+        if r2.is_const():
+            if r2.c < 0:
+                return [Lin(-1)]
+            continue
+        out.append(r2)
+    return list(dict.fromkeys(out))
+
+
+def component(facts, seeds):
+    """facts connected (through shared symbols) to the symbol set `seeds`"""
+    rel = set(seeds)
+    changed = True
+    facts = [f for f in facts if isinstance(f, Lin)]
+    while changed:
+        changed = False
+        for r in facts:
+            s = r.syms()
+            if s & rel and not s <= rel:
+                rel |= s
+                changed = True
+    return [r for r in facts if (r.syms() & rel) or r.is_const()]
+
+
+def entails_nonneg(facts: list[Lin], goal: Lin, integer=True, max_rows=4000, eqs=()) -> bool:
     """Do the facts (each f >= 0) entail goal >= 0?  Decided by refuting facts & (goal <= -1)
     (integers: goal < 0 <=> goal <= -1) with Fourier-Motzkin elimination over the rationals.
     Sound: a rational refutation is an integer refutation. Returns False when it cannot refute."""
     goal = lin(goal)
+    if eqs:
+        subs, ok = solve_eqs(eqs)
+        if not ok:
+            return True
+        goal = apply_subs(subs, goal)
+        facts = [apply_subs(subs, f) for f in facts if isinstance(f, Lin)]
+        facts = [f for f in facts if not (f.is_const() and f.c >= 0)]
     if goal.is_const():
-        return goal.c >= 0
+        return goal.c >= 0 or any(isinstance(f, Lin) and f.is_const() and f.c < 0 for f in facts)
     neg = (-goal) - (1 if integer else 0)   # -goal - 1 >= 0
     rows = [f for f in facts if isinstance(f, Lin)] + [neg]
     # strict version when not integer is not needed here
@@ -133,11 +201,41 @@ def entails_nonneg(facts: list[Lin], goal: Lin, integer=True, max_rows=4000) -> 
     return any(r.is_const() and r.c < 0 for r in rows)
 
 
-def entails_eq(facts, a, b) -> bool:
+def inconsistent(facts: list[Lin], max_rows=4000, eqs=()) -> bool:
+    """Do the facts (each f >= 0) have no rational solution? (Fourier-Motzkin)"""
+    rows = list(dict.fromkeys(f for f in facts if isinstance(f, Lin)))
+    if any(r.is_const() and r.c < 0 for r in rows):
+        return True
+    rows = reduce_equalities(rows, eqs)
+    if any(r.is_const() and r.c < 0 for r in rows):
+        return True
+    syms = set()
+    for r in rows:
+        syms |= r.syms()
+    order = sorted(syms, key=lambda s: sum(1 for r in rows if s in r.t))
+    for s in order:
+        pos = [r for r in rows if r.t.get(s, 0) > 0]
+        negs = [r for r in rows if r.t.get(s, 0) < 0]
+        new = [r for r in rows if s not in r.t]
+        for p in pos:
+            for q in negs:
+                comb = p.scale(-q.t[s]) + q.scale(p.t[s])
+                if comb.is_const():
+                    if comb.c < 0:
+                        return True
+                    continue
+                new.append(comb)
+        rows = list(dict.fromkeys(new))
+        if len(rows) > max_rows:
+            return False
+    return any(r.is_const() and r.c < 0 for r in rows)
+
+
+def entails_eq(facts, a, b, eqs=()) -> bool:
     d = lin(a) - lin(b)
     if d.is_const():
         return d.c == 0
-    return entails_nonneg(facts, d) and entails_nonneg(facts, -d)
+    return entails_nonneg(facts, d, eqs=eqs) and entails_nonneg(facts, -d, eqs=eqs)
 
 
 # ------------------------------------------------------------------ AST -> Lin
